@@ -988,6 +988,12 @@ def module_attr(m, name):
         return ModuleRef(full)
     if full.startswith('os.path.') or full in ('os.getcwd', 'os.name', 'os.sep'):
         return ospath_attr(full)
+    if full in ('os.remove', 'os.unlink'):
+        def os_remove(it, path):
+            it.path.events.append(('remove', path))
+            it.path.writes.append(('remove', path))
+            return None
+        return Builtin(os_remove)
     if full == 'unittest.defaultTestLoader':
         return _DEFAULT_LOADER
     if full == 'unittest.TestLoader':
